@@ -189,7 +189,7 @@ def ob_roundtrip(var_i: int, val_i: int) -> Optional[str]:
 # (b) the detyped mapping handed to a child reflects the values at launch time
 # ----------------------------------------------------------------------------
 OPS = ["set_dbg_0", "set_dbg_false", "set_u_1", "set_u_true", "set_list", "mutate_held", "reassign_held", "append_via_get",
-       "del_u", "swap_enter", "swap_exit", "mask_enter", "launch", "read_list", "set_same_list"]
+       "del_u", "swap_enter", "swap_exit", "mask_enter", "launch", "read_list", "set_same_list", "ov2_enter", "ovmask_enter"]
 
 
 def _launch(env):
@@ -200,6 +200,9 @@ def _launch(env):
     fresh = dict(env.detype())
     env._detyped = saved
     return got, fresh
+
+
+_MISSING = object()
 
 
 def _history(ops):
@@ -231,7 +234,7 @@ def _history(ops):
         elif op == "set_same_list":
             env["LIBPATH"] = list(env["LIBPATH"])
         elif op == "del_u":
-            if "U" in env:
+            if "U" in env._d:  # (a variable visible only through an overlay cannot be deleted: KeyError, not our subject)
                 del env["U"]
         elif op == "swap_enter":
             cm = env.swap(U="swapped", LIBPATH=["/s"])
@@ -241,17 +244,35 @@ def _history(ops):
             cm = env.swap({"U": DELETE_VAR}, overlay={"OV": "1"})
             cm.__enter__()
             stack.append(cm)
+        elif op == "ov2_enter":
+            # a second alias-style overlay naming the same variables as the first one (nested callable aliases with env)
+            cm = env.swap(overlay={"OV": "2", "U": "ov2"})
+            cm.__enter__()
+            stack.append(cm)
+        elif op == "ovmask_enter":
+            cm = env.swap(overlay={"OV": DELETE_VAR})
+            cm.__enter__()
+            stack.append(cm)
         elif op == "swap_exit":
             if stack:
                 stack.pop().__exit__(None, None, None)
         # typed values first (reading a list-valued variable drops the cache, so this must not come after the launch) ...
         want = {}
-        for k in ("U", "LIBPATH", "XONSH_DEBUG"):
-            # peek at the stored value without going through Env.__getitem__ (which drops the cache for list values)
-            if k in env._d and not any(k in o for o in env._overlay_stack):
+        masked = []
+        for k in ("U", "LIBPATH", "XONSH_DEBUG", "OV"):
+            # peek at the stored value without going through Env.__getitem__ (which drops the cache for list values):
+            # the innermost overlay naming the variable decides, then the swapped/stored value
+            v = _MISSING
+            for o in reversed(env._overlay_stack):
+                if k in o:
+                    v = o[k]
+                    break
+            if v is _MISSING and k in env._d:
                 v = env._d[k]
-                if v is not DELETE_VAR:
-                    want[k] = env.get_detyper(k)(v)
+            if v is DELETE_VAR:
+                masked.append(k)
+            elif v is not _MISSING:
+                want[k] = env.get_detyper(k)(v)
         # ... then the launch: cached mapping vs recomputation from scratch; the cache stays filled for the next step
         got, fresh = _launch(env)
         if got != fresh:
@@ -260,6 +281,11 @@ def _history(ops):
                 stack.pop().__exit__(None, None, None)
             kind = "held-reference-mutation" if op == "mutate_held" and set(diff) == {"LIBPATH"} else "stale-child-env"
             return f"{kind}: after {trail}: child would receive {diff} (cached, current)"
+        for k in masked:
+            if k in got:
+                while stack:
+                    stack.pop().__exit__(None, None, None)
+                return f"stale-child-env: after {trail}: ${k} is masked at this point but the child would receive {got.get(k)!r}"
         for k, w in want.items():
             if got.get(k) != w:
                 while stack:
@@ -317,10 +343,10 @@ OBLIGATIONS = [
                         "C10-single-empty-path-entry": _region_single_empty},
                symbolic="variable index, value index"),
     Obligation("child_env_cache", ob_cache,
-               bounds="histories of 1..3 (quick) / 4 (thorough) operations out of 15 (typed and untyped assignments with equal-comparing values, "
+               bounds="histories of 1..3 (quick) / 4 (thorough) operations out of 17 (typed and untyped assignments with equal-comparing values, "
                       "list assignment, in-place mutation through a held reference and through a read, delete, swap / mask / overlay enter "
-                      "and exit); after every operation the mapping a child would receive is compared with a recomputation from scratch",
-               pre=["0 <= o0 < 15", "0 <= o1 < 15", "0 <= o2 < 15", "0 <= o3 < 15"],
+                      "(two overlays naming the same variables, an overlay mask) and exit); after every operation the mapping a child would receive is compared with a recomputation from scratch",
+               pre=["0 <= o0 < 17", "0 <= o1 < 17", "0 <= o2 < 17", "0 <= o3 < 17"],
                parts={"quick": [dict(n=1), dict(n=2)] + [dict(n=3, o0=i) for i in range(len(OPS))],
                       "thorough": [dict(n=1), dict(n=2)] + [dict(n=3, o0=i) for i in range(len(OPS))]
                                   + [dict(n=4, o0=i, o1=j) for i in range(len(OPS)) for j in range(len(OPS))]},
